@@ -10,9 +10,10 @@
    subject of C01-C03; here a plan is a list of steps, each carrying its migration body and the bookkeeping
    statements update_to_step issued for it.
 
-   Universe: SQLite; tables with nullable columns that may carry a server default (no PK / UNIQUE / NOT NULL),
-   non-unique indexes; an INSERT names its columns: an omitted column takes the column default (NULL if none), an
-   explicit None is NULL; a statement that is not applicable (table exists / missing, wrong arity ...) aborts
+   Universe: SQLite; columns may carry a server default and NOT NULL; tables may carry PRIMARY KEY / UNIQUE column
+   sets (a primary key is NOT NULL columns + a unique set; never a lone INTEGER column, which SQLite would make the
+   rowid); indexes may be unique; an INSERT names its columns: an omitted column takes the column default (NULL if
+   none), an explicit None is NULL; an INSERT / UPDATE / CREATE UNIQUE INDEX that violates NOT NULL or uniqueness fails; a statement that is not applicable (table exists / missing, wrong arity ...) aborts
    the run (None).  Table, column and index names are interned by the harness (N); table names and index
    names are different name spaces by construction and never name the version table. *)
 From AV Require Export Base.ListSet.
@@ -25,6 +26,15 @@ Definition text := list N.              (* code points *)
 (* ---------------------------------------------------------------- values stored in a cell *)
 Inductive value := VNull | VInt (z:Z) | VText (s:text) | VNum (s:text).
    (* VNum: a REAL, identified by the canonical text python's repr(float) gives for it *)
+
+Definition value_eqb (a b : value) : bool :=
+  match a, b with
+  | VNull, VNull => true
+  | VInt x, VInt y => Z.eqb x y
+  | VText x, VText y => list_eqb N.eqb x y
+  | VNum x, VNum y => list_eqb N.eqb x y
+  | _, _ => false
+  end.
 
 (* ---------------------------------------------------------------- DefaultImpl._exec, as_sql branch:
    static_output( str(compiled).replace("\t", "    ").strip() + self.command_terminator )            *)
@@ -46,11 +56,30 @@ Definition exec_post (term s : text) : text := strip (replace_tab s) ++ term.
 Definition post (l:text) : text := replace_tab l.
 Definition no_tab (s:text) : bool := negb (memN 9 s).
 
+(* ---- the whole statement text.  str(compiled) is: blanks (SQLAlchemy starts DDL with a newline), then tokens, then
+   blanks.  A token is a word (keyword, identifier, number, punctuation: no blank inside, no tab), a run of blanks
+   (SQLAlchemy indents DDL with tabs), or a literal (quoted text: anything inside). *)
+Inductive tok := TWord (s:text) | TSpace (s:text) | TLit (s:text).
+Definition tok_text (t:tok) : text := match t with TWord s | TSpace s | TLit s => s end.
+Definition flat (l:list tok) : text := flat_map tok_text l.
+Record stext := mkSText { st_lead : text; st_core : list tok; st_trail : text }.
+Definition stext_text (x:stext) : text := st_lead x ++ flat (st_core x) ++ st_trail x.
+(* what _exec's replace("\t", "    ") does token by token *)
+Definition post_tok (t:tok) : tok :=
+  match t with TWord s => TWord (replace_tab s) | TSpace s => TSpace (replace_tab s) | TLit s => TLit (post s) end.
+Definition hd_last_ok (s:text) : bool :=
+  match s with [] => false | a :: _ => negb (is_ws a) && negb (is_ws (last s a)) end.
+Definition tok_ok (t:tok) : bool :=
+  match t with TWord s => no_tab s | TSpace s => forallb is_ws s | TLit s => hd_last_ok s (* starts and ends with its delimiters *) end.
+Definition stext_wf (x:stext) : bool :=
+  forallb is_ws (st_lead x) && forallb is_ws (st_trail x) && hd_last_ok (flat (st_core x)) && forallb tok_ok (st_core x).
+
 (* ---------------------------------------------------------------- abstract database *)
 (* c_dflt: the value SQLite stores for a column the INSERT omits (server_default), None = no default *)
-Record col := mkCol { c_name : N; c_type : N; c_dflt : option value }.
-Record table := mkTable { t_name : N; t_cols : list col; t_rows : list (list value) }.
-Record index := mkIndex { x_name : N; x_tab : N; x_cols : list N }.
+Record col := mkCol { c_name : N; c_type : N; c_dflt : option value; c_notnull : bool }.
+(* t_uniq: the column sets of PRIMARY KEY and UNIQUE constraints *)
+Record table := mkTable { t_name : N; t_cols : list col; t_uniq : list (list N); t_rows : list (list value) }.
+Record index := mkIndex { x_name : N; x_tab : N; x_cols : list N; x_unique : bool }.
 Record udb := mkU { u_tabs : list table; u_idx : list index }.
 (* version table: None = the table does not exist *)
 Definition db : Type := udb * option (list N).
@@ -61,10 +90,10 @@ Definition db : Type := udb * option (list N).
 Inductive rawstmt := RInsert (t:N) (cells : list (option text)) | RDeleteAll (t:N) | RUpdateAll (t c : N) (w:text).
 (* the default of a column of CreateTable / AddColumn is the python-side value d; the DDL carries its literal *)
 Inductive op :=
-| CreateTable (t:N) (cols : list col)
+| CreateTable (t:N) (cols : list col) (uniq : list (list N))
 | DropTable (t:N)
 | AddColumn (t:N) (c:col)
-| CreateIndex (i t : N) (cols : list N)
+| CreateIndex (i t : N) (cols : list N) (unique : bool)
 | DropIndex (i:N)
 | BulkInsert (t:N) (rows : list (list (option value)))   (* per column AND per row: None = key absent from that row's dict.
      online multiinsert=True (executemany, one key set for all rows) and multiinsert=False (one INSERT per row, each
@@ -76,13 +105,13 @@ Inductive vstmt := VIns (r:N) | VDel (r:N) | VUpd (a b : N).
 Record step := mkStep { s_body : list op; s_bk : list vstmt }.
 
 (* ---------------------------------------------------------------- SQL statements; A = what stands in a literal position *)
-Record scol (A:Type) := mkSCol { sc_name : N; sc_type : N; sc_dflt : option A }.   (* DEFAULT <literal> *)
-Arguments mkSCol {A}. Arguments sc_name {A}. Arguments sc_type {A}. Arguments sc_dflt {A}.
+Record scol (A:Type) := mkSCol { sc_name : N; sc_type : N; sc_dflt : option A; sc_notnull : bool }.   (* DEFAULT <literal> *)
+Arguments mkSCol {A}. Arguments sc_name {A}. Arguments sc_type {A}. Arguments sc_dflt {A}. Arguments sc_notnull {A}.
 Inductive stmt (A:Type) :=
-| SCreateTable (t:N) (cols : list (scol A))
+| SCreateTable (t:N) (cols : list (scol A)) (uniq : list (list N))
 | SDropTable (t:N)
 | SAddColumn (t:N) (c:scol A)
-| SCreateIndex (i t : N) (cols : list N)
+| SCreateIndex (i t : N) (cols : list N) (unique : bool)
 | SDropIndex (i:N)
 | SInsert (t:N) (cells : list (option A))
 | SDeleteAll (t:N)
@@ -93,6 +122,20 @@ Arguments SDropIndex {A}. Arguments SInsert {A}. Arguments SDeleteAll {A}. Argum
 Arguments SVCreate {A}. Arguments SVDrop {A}. Arguments SVInsert {A}. Arguments SVDelete {A}. Arguments SVUpdate {A}.
 
 Definition sqlstmt := stmt text.                 (* a statement of the offline script: literals are text *)
+Definition map_scol {A B} (f : A -> B) (c:scol A) : scol B :=
+  mkSCol (sc_name c) (sc_type c) (option_map f (sc_dflt c)) (sc_notnull c).
+Definition map_stmt {A B} (f : A -> B) (s:stmt A) : stmt B :=
+  match s with
+  | SCreateTable t cols u => SCreateTable t (map (map_scol f) cols) u
+  | SDropTable t => SDropTable t
+  | SAddColumn t c => SAddColumn t (map_scol f c)
+  | SCreateIndex i t cols u => SCreateIndex i t cols u
+  | SDropIndex i => SDropIndex i
+  | SInsert t cells => SInsert t (map (option_map f) cells)
+  | SDeleteAll t => SDeleteAll t
+  | SUpdateAll t c x => SUpdateAll t c (f x)
+  | SVCreate => SVCreate | SVDrop => SVDrop | SVInsert r => SVInsert r | SVDelete r => SVDelete r | SVUpdate a b => SVUpdate a b
+  end.
 Inductive ocell := Bound (v:value) | Lit (l:text).   (* online: a bound parameter, or literal text inside op.execute("...") *)
 
 (* ---------------------------------------------------------------- statement semantics *)
@@ -111,11 +154,35 @@ Fixpoint set_nth {A} (l : list A) (k:nat) (a:A) : list A :=
 Fixpoint pos_of (x:N) (l:list N) : option nat :=
   match l with [] => None | y :: r => if N.eqb x y then Some O else option_map S (pos_of x r) end.
 
+(* ---- NOT NULL and uniqueness.  A key with a NULL in it never conflicts (SQL UNIQUE). *)
+Fixpoint nth_value (row : list value) (k:nat) : value :=
+  match row, k with [], _ => VNull | v :: _, O => v | _ :: r, S k' => nth_value r k' end.
+Definition row_key (names : list N) (us : list N) (row : list value) : option (list value) :=
+  let vals := map (fun c => match pos_of c names with Some k => nth_value row k | None => VNull end) us in
+  if existsb (fun v => value_eqb v VNull) vals then None else Some vals.
+Definition okey_eqb (a b : option (list value)) : bool :=
+  match a, b with Some x, Some y => list_eqb value_eqb x y | _, _ => false end.
+Fixpoint notnull_ok (cols : list col) (row : list value) : bool :=
+  match cols, row with
+  | c :: cs, v :: vs => negb (c_notnull c && value_eqb v VNull) && notnull_ok cs vs
+  | _, _ => true
+  end.
+Definition uniq_ok (names : list N) (uniqs : list (list N)) (rows : list (list value)) (row : list value) : bool :=
+  forallb (fun us => negb (existsb (fun r => okey_eqb (row_key names us r) (row_key names us row)) rows)) uniqs.
+Definition row_ok (cols : list col) (uniqs : list (list N)) (rows : list (list value)) (row : list value) : bool :=
+  notnull_ok cols row && uniq_ok (map c_name cols) uniqs rows row.
+Fixpoint rows_ok_from (cols : list col) (uniqs : list (list N)) (acc rows : list (list value)) : bool :=
+  match rows with [] => true | r :: rest => row_ok cols uniqs acc r && rows_ok_from cols uniqs (acc ++ [r]) rest end.
+Definition rows_ok cols uniqs rows : bool := rows_ok_from cols uniqs [] rows.
+(* every uniqueness requirement on a table: its constraints and its unique indexes *)
+Definition uniqs_of (u:udb) (T:table) : list (list N) :=
+  t_uniq T ++ map x_cols (filter (fun x => x_unique x && N.eqb (x_tab x) (t_name T)) (u_idx u)).
+
 Section Exec.
   Context {A:Type}.
   Variable rd : A -> value.                      (* how the database reads what stands in a literal position *)
 
-  Definition read_col (c:scol A) : col := mkCol (sc_name c) (sc_type c) (option_map rd (sc_dflt c)).
+  Definition read_col (c:scol A) : col := mkCol (sc_name c) (sc_type c) (option_map rd (sc_dflt c)) (sc_notnull c).
   Definition dflt_or_null (c:col) : value := match c_dflt c with Some v => v | None => VNull end.
   Fixpoint fill_row (cols : list col) (cells : list (option A)) : list value :=
     match cols, cells with
@@ -125,9 +192,10 @@ Section Exec.
 
   Definition exec_u (u:udb) (s:stmt A) : option udb :=
     match s with
-    | SCreateTable t cols =>
+    | SCreateTable t cols uniq =>
         match find_tab (u_tabs u) t, cols with
-        | None, _ :: _ => if nodupb (map sc_name cols) then Some (mkU (u_tabs u ++ [mkTable t (map read_col cols) []]) (u_idx u)) else None
+        | None, _ :: _ => if nodupb (map sc_name cols) && forallb (fun us => subsetN us (map sc_name cols)) uniq
+                          then Some (mkU (u_tabs u ++ [mkTable t (map read_col cols) uniq []]) (u_idx u)) else None
         | _, _ => None
         end
     | SDropTable t =>
@@ -138,15 +206,18 @@ Section Exec.
         end
     | SAddColumn t c =>
         match find_tab (u_tabs u) t with
-        | Some T => if memN (sc_name c) (col_names T) then None
-                    else let c' := read_col c in
-                         Some (mkU (set_tab (u_tabs u) (mkTable t (t_cols T ++ [c']) (map (fun r => r ++ [dflt_or_null c']) (t_rows T)))) (u_idx u))
+        | Some T => let c' := read_col c in
+                    if memN (sc_name c) (col_names T) then None
+                    else if c_notnull c' && value_eqb (dflt_or_null c') VNull && negb (Nat.eqb (length (t_rows T)) 0)
+                         then None   (* SQLite: cannot add a NOT NULL column with default NULL — checked against the existing rows *)
+                    else Some (mkU (set_tab (u_tabs u) (mkTable t (t_cols T ++ [c']) (t_uniq T) (map (fun r => r ++ [dflt_or_null c']) (t_rows T)))) (u_idx u))
         | None => None
         end
-    | SCreateIndex i t cols =>
+    | SCreateIndex i t cols unique =>
         match find_tab (u_tabs u) t, cols with
         | Some T, _ :: _ => if negb (has_idx (u_idx u) i) && subsetN cols (col_names T) && nodupb cols
-                            then Some (mkU (u_tabs u) (u_idx u ++ [mkIndex i t cols])) else None
+                               && (negb unique || rows_ok (t_cols T) [cols] (t_rows T))   (* existing duplicates refuse a unique index *)
+                            then Some (mkU (u_tabs u) (u_idx u ++ [mkIndex i t cols unique])) else None
         | _, _ => None
         end
     | SDropIndex i =>
@@ -154,18 +225,25 @@ Section Exec.
     | SInsert t cells =>
         match find_tab (u_tabs u) t with
         | Some T => if Nat.eqb (length cells) (length (t_cols T))
-                    then Some (mkU (set_tab (u_tabs u) (mkTable t (t_cols T) (t_rows T ++ [fill_row (t_cols T) cells]))) (u_idx u)) else None
+                    then let row := fill_row (t_cols T) cells in
+                         if row_ok (t_cols T) (uniqs_of u T) (t_rows T) row
+                         then Some (mkU (set_tab (u_tabs u) (mkTable t (t_cols T) (t_uniq T) (t_rows T ++ [row]))) (u_idx u))
+                         else None                                   (* IntegrityError *)
+                    else None
         | None => None
         end
     | SDeleteAll t =>
         match find_tab (u_tabs u) t with
-        | Some T => Some (mkU (set_tab (u_tabs u) (mkTable t (t_cols T) [])) (u_idx u))
+        | Some T => Some (mkU (set_tab (u_tabs u) (mkTable t (t_cols T) (t_uniq T) [])) (u_idx u))
         | None => None
         end
     | SUpdateAll t c cell =>
         match find_tab (u_tabs u) t with
         | Some T => match pos_of c (col_names T) with
-                    | Some k => Some (mkU (set_tab (u_tabs u) (mkTable t (t_cols T) (map (fun r => set_nth r k (rd cell)) (t_rows T)))) (u_idx u))
+                    | Some k => let rows := map (fun r => set_nth r k (rd cell)) (t_rows T) in
+                                if rows_ok (t_cols T) (uniqs_of u T) rows
+                                then Some (mkU (set_tab (u_tabs u) (mkTable t (t_cols T) (t_uniq T) rows)) (u_idx u))
+                                else None
                     | None => None
                     end
         | None => None
@@ -192,13 +270,23 @@ Section Exec.
     if is_vstmt s then match exec_v (snd d) s with Some v => Some (fst d, v) | None => None end
     else match exec_u (fst d) s with Some u => Some (u, snd d) | None => None end.
 
-  (* execute statement by statement; the first failing statement aborts *)
-  Fixpoint exec_list (d:db) (l : list (stmt A)) : option db :=
+  (* statements whose execution makes the sqlite3 driver open a transaction (legacy isolation mode: DML opens, DDL joins) *)
+  Definition is_dml (s:stmt A) : bool :=
+    match s with SInsert _ _ | SDeleteAll _ | SUpdateAll _ _ _ | SVInsert _ | SVDelete _ | SVUpdate _ _ => true | _ => false end.
+
+  (* execute statement by statement in autocommit; the first failing statement stops the run.
+     Result: the database reached (everything before the failing statement is kept) and whether the list completed. *)
+  Fixpoint exec_run (d:db) (l : list (stmt A)) : db * bool :=
     match l with
-    | [] => Some d
-    | s :: r => match exec_stmt d s with Some d' => exec_list d' r | None => None end
+    | [] => (d, true)
+    | s :: r => match exec_stmt d s with Some d' => exec_run d' r | None => (d, false) end
     end.
+  Definition exec_list (d:db) (l : list (stmt A)) : option db :=
+    let (d', ok) := exec_run d l in if ok then Some d' else None.
 End Exec.
+
+(* how a run ends: the database afterwards, and whether it completed or was stopped by an error *)
+Inductive outcome := Done (d:db) | Aborted (d:db).
 
 Section Lit.
   (* SQLAlchemy's literal renderer for the column type and SQLite's reading of a literal: not alembic's code *)
@@ -208,7 +296,9 @@ Section Lit.
      TextClause rewrites the statement text ("\:" becomes ":"); its action on the text of a literal *)
   Variable untext : text -> text.
 
-  (* executing the offline script with the sqlite3 module *)
+  (* executing the offline script with the sqlite3 module, statement by statement, autocommit:
+     a failing statement leaves everything before it in the database *)
+  Definition replay_run (d:db) (script : list sqlstmt) : db * bool := exec_run parse_lit d script.
   Definition replay (d:db) (script : list sqlstmt) : option db := exec_list parse_lit d script.
 
   Definition rd_on (c:ocell) : value := match c with Bound v => v | Lit l => parse_lit l end.
@@ -223,14 +313,14 @@ Section Lit.
     | RDeleteAll t => SDeleteAll t
     | RUpdateAll t c w => SUpdateAll t c (f w)
     end.
-  Definition compile_col {A} (f : value -> A) (c:col) : scol A := mkSCol (c_name c) (c_type c) (option_map f (c_dflt c)).
+  Definition compile_col {A} (f : value -> A) (c:col) : scol A := mkSCol (c_name c) (c_type c) (option_map f (c_dflt c)) (c_notnull c).
   (* fbind: a bulk_insert value; fddl: the default literal of a column; fexec: a literal of an op.execute string *)
   Definition compile_op {A} (fbind fddl : value -> A) (fexec : text -> A) (o:op) : list (stmt A) :=
     match o with
-    | CreateTable t cols => [SCreateTable t (map (compile_col fddl) cols)]
+    | CreateTable t cols uniq => [SCreateTable t (map (compile_col fddl) cols) uniq]
     | DropTable t => [SDropTable t]
     | AddColumn t c => [SAddColumn t (compile_col fddl c)]
-    | CreateIndex i t cols => [SCreateIndex i t cols]
+    | CreateIndex i t cols unique => [SCreateIndex i t cols unique]
     | DropIndex i => [SDropIndex i]
     | BulkInsert t rows => map (fun row => SInsert t (map (option_map fbind) row)) rows
     | Execute r => [compile_raw fexec r]
@@ -254,37 +344,72 @@ Section Lit.
   Definition vstmt_sql {A} (s:vstmt) : stmt A :=
     match s with VIns r => SVInsert r | VDel r => SVDelete r | VUpd a b => SVUpdate a b end.
 
-  (* ---- online: run_migrations with a connection *)
+  (* ---- online: run_migrations with a connection.
+     Transactions (SQLite, stock env.py): transactional_ddl is False, so begin_transaction(_per_migration=True) opens
+     one logical transaction per step and commits it after the step's bookkeeping.  With the sqlite3 driver the real
+     transaction starts at the first DML statement after the last commit; DDL before it is already permanent, DDL
+     after it is part of the transaction.  An exception rolls back to that point.
+     o_snap = the database at the start of the open driver transaction, None when none is open. *)
+  Record ostate := mkO { o_cur : db; o_snap : option db }.
+  Definition rolled_back (st:ostate) : db := match o_snap st with Some d => d | None => o_cur st end.
+  Definition commit (st:ostate) : ostate := mkO (o_cur st) None.
+  Definition on_exec (st:ostate) (s:stmt ocell) : option ostate :=
+    match exec_stmt rd_on (o_cur st) s with
+    | Some d' => Some (mkO d' (if is_dml s then match o_snap st with None => Some (o_cur st) | x => x end else o_snap st))
+    | None => None
+    end.
+  Fixpoint on_exec_run (st:ostate) (l : list (stmt ocell)) : ostate * bool :=
+    match l with
+    | [] => (st, true)
+    | s :: r => match on_exec st s with Some st' => on_exec_run st' r | None => (st, false) end
+    end.
+
   Definition vers_rows (d:db) : list N := match snd d with Some l => l | None => [] end.
   Definition ensure_version_table (d:db) : db := match snd d with None => (fst d, Some []) | Some _ => d end.
   (* one bookkeeping statement online: heads bookkeeping, the statement itself, and the rowcount check *)
-  Definition on_bk1 (d:db) (h:list N) (s:vstmt) : option (db * list N) :=
+  Definition on_bk1 (st:ostate) (h:list N) (s:vstmt) : option (ostate * list N) :=
     match hm_apply h s with
     | None => None
     | Some h' =>
-        let rows := vers_rows d in
+        let rows := vers_rows (o_cur st) in
         let rowcount_ok := match s with VIns _ => true | VDel r => Nat.eqb (countN r rows) 1 | VUpd a _ => Nat.eqb (countN a rows) 1 end in
-        match exec_stmt rd_on d (vstmt_sql s) with
-        | Some d' => if rowcount_ok then Some (d', h') else None (* CommandError *)
+        match on_exec st (vstmt_sql s) with
+        | Some st' => if rowcount_ok then Some (st', h') else None (* CommandError *)
         | None => None
         end
     end.
-  Fixpoint on_bk (d:db) (h:list N) (l:list vstmt) : option (db * list N) :=
-    match l with [] => Some (d, h) | s :: r => match on_bk1 d h s with Some (d', h') => on_bk d' h' r | None => None end end.
+  (* result: state, heads, completed?  (on failure the state is the one reached before the failing statement;
+     a failed rowcount check happens after its statement, inside the same transaction: the snapshot is what matters) *)
+  Fixpoint on_bk (st:ostate) (h:list N) (l:list vstmt) : ostate * list N * bool :=
+    match l with
+    | [] => (st, h, true)
+    | s :: r => match on_bk1 st h s with Some (st', h') => on_bk st' h' r | None => (st, h, false) end
+    end.
   Definition body_on (b : list op) : list (stmt ocell) := flat_map compile_on b.
-  Fixpoint on_steps (d:db) (h:list N) (steps : list step) : option (db * list N) :=
+  Fixpoint on_steps (st:ostate) (h:list N) (steps : list step) : ostate * list N * bool :=
     match steps with
-    | [] => Some (d, h)
-    | st :: r =>
-        match exec_list rd_on d (body_on (s_body st)) with
-        | None => None
-        | Some d1 => match on_bk d1 h (s_bk st) with Some (d2, h2) => on_steps d2 h2 r | None => None end
+    | [] => (st, h, true)
+    | stp :: r =>
+        match on_exec_run st (body_on (s_body stp)) with
+        | (st1, false) => (st1, h, false)
+        | (st1, true) => match on_bk st1 h (s_bk stp) with
+                         | (st2, h2, true) => on_steps (commit st2) h2 r
+                         | (st2, h2, false) => (st2, h2, false)
+                         end
         end
+    end.
+  Definition run_online_tx (d:db) (steps : list step) : ostate * list N * bool :=
+    let heads := vers_rows d in
+    (* _ensure_version_table: DDL outside any transaction *)
+    let d1 := match heads with [] => ensure_version_table d | _ => d end in
+    on_steps (mkO d1 None) heads steps.
+  Definition online_outcome (d:db) (steps : list step) : outcome :=
+    match run_online_tx d steps with
+    | (st, _, true) => Done (o_cur st)
+    | (st, _, false) => Aborted (rolled_back st)
     end.
   Definition run_online (d:db) (steps : list step) : option db :=
-    let heads := vers_rows d in
-    let d1 := match heads with [] => ensure_version_table d | _ => d end in
-    match on_steps d1 heads steps with Some (d2, _) => Some d2 | None => None end.
+    match online_outcome d steps with Done d' => Some d' | Aborted _ => None end.
 
   (* ---- offline: run_migrations with as_sql; the output buffer as a statement list *)
   Definition body_off (b : list op) : list sqlstmt := flat_map compile_off b.
@@ -307,8 +432,59 @@ Section Lit.
     | None => None
     end.
 
+  (* generating the script can itself fail (an assertion in HeadMaintainer): then nothing is executed *)
+  Definition offline_outcome (d:db) (start : list N) (steps : list step) : outcome :=
+    match run_offline start steps with
+    | Some s => match replay_run d s with (d', true) => Done d' | (d', false) => Aborted d' end
+    | None => Aborted d
+    end.
   Definition offline_effect (d:db) (start : list N) (steps : list step) : option db :=
     match run_offline start steps with Some s => replay d s | None => None end.
+
+  (* ---- the offline script as TEXT.
+     The constructs alembic hands to _exec, before _exec's text processing: literals are lit v / untext w. *)
+  Definition compile_plain (o:op) : list sqlstmt := compile_op lit lit untext o.
+  Definition body_plain (b : list op) : list sqlstmt := flat_map compile_plain b.
+  Fixpoint off_steps_plain (h : list N) (steps : list step) : option (list sqlstmt * list N) :=
+    match steps with
+    | [] => Some ([], h)
+    | st :: r =>
+        let pre := match h with [] => [SVCreate] | _ => [] end in
+        match hm_list h (s_bk st) with
+        | None => None
+        | Some h' => match off_steps_plain h' r with
+                     | Some (s, hf) => Some (pre ++ body_plain (s_body st) ++ map vstmt_sql (s_bk st) ++ s, hf)
+                     | None => None
+                     end
+        end
+    end.
+  Definition run_offline_plain (start : list N) (steps : list step) : option (list sqlstmt) :=
+    match off_steps_plain start steps with
+    | Some (s, hf) => Some (s ++ match hf with [] => [SVDrop] | _ => [] end)
+    | None => None
+    end.
+  (* render = SQLAlchemy's compiler: str(compiled) of a construct, with its token structure;
+     sqlite = SQLite reading one chunk of the script (statement + terminator): neither is alembic's code.
+     DefaultImpl._exec writes exec_post term (str(compiled)) for every construct. *)
+  Variable render : sqlstmt -> stext.
+  Variable sqlite : text -> option sqlstmt.
+  Variable term : text.
+  Definition exec_text (s:sqlstmt) : text := exec_post term (stext_text (render s)).
+  Definition offline_text (start : list N) (steps : list step) : option (list text) :=
+    match run_offline_plain start steps with Some l => Some (map exec_text l) | None => None end.
+  Fixpoint replay_text_run (d:db) (l : list text) : db * bool :=
+    match l with
+    | [] => (d, true)
+    | x :: r => match sqlite x with
+                | Some s => match exec_stmt parse_lit d s with Some d' => replay_text_run d' r | None => (d, false) end
+                | None => (d, false)                                   (* syntax error *)
+                end
+    end.
+  Definition offline_text_effect (d:db) (start : list N) (steps : list step) : option db :=
+    match offline_text start steps with
+    | Some l => match replay_text_run d l with (d', true) => Some d' | _ => None end
+    | None => None
+    end.
 End Lit.
 
 (* ---------------------------------------------------------------- observable
@@ -325,7 +501,7 @@ Definition col_values (c:col) : list value := match c_dflt c with Some v => [v] 
 Definition op_values (o:op) : list value :=            (* rendered by SQLAlchemy's literal renderer *)
   match o with
   | BulkInsert _ rows => flat_map somes rows
-  | CreateTable _ cols => flat_map col_values cols
+  | CreateTable _ cols _ => flat_map col_values cols
   | AddColumn _ c => col_values c
   | _ => []
   end.
